@@ -185,7 +185,25 @@ func c06rules(c *Ctx, w *World, pfx string) {
 				continue
 			}
 			// (a) exactly one MapUpdate storing the element under the tagsKey parameter on every path
+			// the element is stored by a map update, or handed to the split map's own Merge<T>(name, tagsKey, elem)
+			mergeCall := func(in ssa.Instruction) *ssa.Call {
+				cc, ok := in.(*ssa.Call)
+				if !ok {
+					return nil
+				}
+				cal := staticCallee(cc)
+				if cal == nil || cal.Name() != "Merge"+strings.TrimSuffix(F, "s") || len(cc.Call.Args) != 4 {
+					return nil
+				}
+				if paramIndex(cl, cc.Call.Args[3]) != 2 {
+					return nil
+				}
+				return cc
+			}
 			isElemStore := func(in ssa.Instruction) bool {
+				if mergeCall(in) != nil {
+					return true
+				}
 				mu, ok := in.(*ssa.MapUpdate)
 				return ok && paramIndex(cl, mu.Value) == 2
 			}
@@ -193,6 +211,15 @@ func c06rules(c *Ctx, w *World, pfx string) {
 			r.Check(key+":exactly-once", m == 2, cl.Pos(), "number of stores of the iterated element over all paths = "+maskString(m)+" (must be exactly {1})")
 			eachInstr(cl, func(in ssa.Instruction) {
 				if !isElemStore(in) {
+					return
+				}
+				if mc := mergeCall(in); mc != nil {
+					a := mc.Call.Args
+					r.Check(key+":tagskey-unchanged", paramIndex(cl, a[2]) == 1, mc.Pos(), "element merged under key "+pathOf(a[2])+" (must be the tagsKey parameter)")
+					r.Check(key+":name-unchanged", paramIndex(cl, a[1]) == 0, mc.Pos(), "element merged under name "+pathOf(a[1])+" (must be the metric-name parameter)")
+					r.Check(key+":same-type-field", true, mc.Pos(), "Merge"+strings.TrimSuffix(F, "s")+" stores into field "+F+" of the split")
+					good, why := selector(cl, a[0])
+					r.Check(key+":selector", good, mc.Pos(), why)
 					return
 				}
 				mu := in.(*ssa.MapUpdate)
